@@ -138,7 +138,10 @@ def main():
     ap.add_argument("--save", action="store_true", help="write mutants/<name>.diff")
     ap.add_argument("--all-props", action="store_true", help="also run the properties that are expected to stay silent")
     ap.add_argument("--seed", default="1")
+    ap.add_argument("--diffs-only", action="store_true", help="only (re)write mutants/<name>.diff; run nothing")
     a = ap.parse_args()
+    if a.diffs_only:
+        a.save = True
     root = tempfile.mkdtemp(prefix="verif-mut-")
     out = tempfile.mkdtemp(prefix="verif-mut-out-")
     rows, bad = [], 0
@@ -158,6 +161,9 @@ def main():
                     with open(os.path.join(VERIF, "mutants", m["name"] + ".diff"), "w") as f:
                         f.write("# %s\n# expect: %s\n" % (m["note"], " ".join(sorted(m["expect"])) or "none (equivalent for the claimed properties)"))
                         f.write(d)
+                if a.diffs_only:
+                    rows.append((m["name"], "saved", ""))
+                    continue
                 t = sh("go test -vet=off -count=1 ./... 2>&1 | tail -5", cwd=wt)
                 if "FAIL" in t.stdout or t.returncode:
                     rows.append((m["name"], "KILLED-BY-TESTS", t.stdout.strip().splitlines()[-1] if t.stdout.strip() else ""))
